@@ -680,7 +680,7 @@ def rule_mem_base_label(chk, A):
         if x.get("cn") == "is_label":
             return [("lob",)] if holds else [("not-label",)]
         return ()
-    m = Must(emit, None, edge)
+    m = Must(emit, None, edge, resolve_locals=True)
     # locals that receive a base_id() and are used as label ids
     label_users = set()
     for i, x in emit.calls(lambda x: x.get("cn") in ("is_label_valid", "label_entry_of") and x.get("args")):
